@@ -34,14 +34,18 @@ Fixpoint delta_from (k : nat) (before after : list (option content)) : list (nat
       end
   end.
 
-Fixpoint model_deltas (muxes : list mux) (sched : list label) (st : state) : list (list (nat * content)) * state :=
+Fixpoint model_deltas_from (muxes : list mux) (sched : list label) (st : state) (before : list (option content))
+  : list (list (nat * content)) * state :=
   match sched with
   | [] => ([], st)
   | s :: r =>
       let st' := step muxes clone st s in
-      let (ds, fin) := model_deltas muxes r st' in
-      (delta_from 0 (vis st) (vis st') :: ds, fin)
+      let after := vis st' in
+      let (ds, fin) := model_deltas_from muxes r st' after in
+      (delta_from 0 before after :: ds, fin)
   end.
+
+Definition model_deltas (muxes : list mux) (sched : list label) (st : state) := model_deltas_from muxes sched st (vis st).
 
 Definition pair_eqb (x y : nat * content) : bool := Nat.eqb (fst x) (fst y) && content_eqb (snd x) (snd y).
 
@@ -95,6 +99,35 @@ Definition c20_isolated_ok (c : c20_case) : bool := let '(_, sched, _, deltas) :
 Definition c20_model_mismatches (cs : list c20_case) : list nat := indices_where (fun c => negb (c20_model_ok c)) cs.
 Definition c20_entry_violations (cs : list c20_case) : list nat := indices_where (fun c => negb (c20_entry_ok c)) cs.
 Definition c20_isolation_violations (cs : list c20_case) : list nat := indices_where (fun c => negb (c20_isolated_ok c)) cs.
+
+(* ----- compact literals for the generated cases (parsing cost is per syntax node): a byte string is
+   one number, little-endian base 256 with a leading 1 as end marker; every index is an N ----- *)
+Fixpoint dec_fuel (fuel : nat) (n : N) : list N :=
+  match fuel with
+  | O => []
+  | S f => if (n <=? 1)%N then [] else (n mod 256)%N :: dec_fuel f (n / 256)%N
+  end.
+Definition dec (n : N) : list N := dec_fuel (N.size_nat n) n.
+Definition nn := N.to_nat.
+
+(* flags: bit 0 retain, bit 1 dup *)
+Definition RC (t id q fl p : N) : content :=
+  mkC (dec t) id q (N.odd fl) (N.odd (fl / 2)) (dec p).
+Definition RTopic (t : N) := OSetTopic (dec t).
+Definition RWrite (i v : N) := OWrite (nn i) v.
+Definition RAppend (bs extra : N) := OAppend (dec bs) (nn extra).
+Definition RReslice (lo hi : N) := OReslice (nn lo) (nn hi).
+Definition RNewPl (bs extra : N) := ONewPayload (dec bs) (nn extra).
+Definition RNew (c : content) (extra : N) := SNew c (nn extra).
+Definition RMut (a : N) (o : op) := SMut (nn a) o.
+Definition RBegin (a mi : N) := SMuxBegin (nn a) (nn mi).
+Definition RNext (f extra : N) := SMuxNext (nn f) (nn extra).
+Definition RAsync (a hid extra : N) := SAsync (nn a) (nn hid) (nn extra).
+Definition RRun (k : N) := SRun (nn k).
+Definition RDisp (d a : N) (c : content) := EvDispatch (nn d) (nn a) c.
+Definition REntry (d hid k : N) (c : content) := EvEntry (nn d) (nn hid) (nn k) c.
+Definition RD (k : N) (c : content) : nat * content := (nn k, c).
+Definition RReg (f hid : N) : str * nat := (dec f, nn hid).
 
 (* ----- directed nesting scenarios (ServeAsync registered in a ServeMux, ServeMux behind ServeAsync):
    dispatched content, contents seen on entry by the handlers, caller's content afterwards ----- *)
